@@ -12,9 +12,14 @@ RULE = ('exhaustive small scope (recording length x window length x all sorted s
         '(quick) / <= 3 (thorough) spikes x channel lists; for exports additionally all splits into <= 2 '
         'files x every chunk length) with sample dtype / spike dtype / channel-list kind / backend '
         '(ndarray, Array/Flat/.cbin readers) / unit factor rotated on the implementation side; then seeded '
-        'random larger, boundary-biased cases (spikes at 0, last sample, chunk and file bounds +-1). '
+        'random larger, boundary-biased cases (spikes at 0, last sample, chunk and file bounds +-1); stores over '
+        'random small exports queried in shuffled order with repeated ids, -1 anywhere in stored rows and in the '
+        'query, sometimes a repeated query channel; TemplateModel.get_waveforms on generated dataset directories '
+        '(raw only / store only / both / neither, store written by export_waveforms on the model traces or by '
+        'save_spikes_subset_waveforms, 1-3 raw files, unmapped raw channels, int16/float32/float64 recordings, '
+        '4 spike_times dtypes, ids missing from the store, negative ids, channel_ids omitted). '
         'Non-trivial = at least one spike whose window overflows the recording, touches a chunk/file '
-        'boundary or uses a -1 channel; distinct = distinct abstract input.')
+        'boundary or uses a -1 channel, or (model route) a store is present; distinct = distinct abstract input.')
 EXHAUSTIVE = {'quick': True, 'thorough': True}
 CLAUSES = {
     1: 'observed output differs from the Coq model PV.C03.Model',
